@@ -31,7 +31,7 @@ ALSO = {"AckOnce:unknown-or-repeated-delivery-tag", "AckOnce:multiple"}
 # ---------------- routing on multi-instance worlds ------------------------------------------
 def routing_scenarios(thorough):
     base = {s["id"]: s for s in S.protocol_scenarios() + S.failure_scenarios()}
-    ids = ["task-chain", "two-execs", "par-task-end", "map-task-mc1", "task-retry", "nested"]
+    ids = ["task-chain", "two-execs", "par-task-end", "map-task-mc1", "task-retry", "nested", "child-sync-ok"]
     if thorough:
         ids += ["task-task", "par-2step", "map-task", "par-fail-unhandled", "par-inner-catch", "wait-chain", "express-par"]
     out = []
@@ -41,7 +41,7 @@ def routing_scenarios(thorough):
             s = json.loads(json.dumps(s))
             s["id"] = "%s@%d-%s-%s" % (i, n, qt, tr)
             s["world"] = {"instances": n, "queue_type": qt, "transport": tr}
-            if i != "two-execs":
+            if i not in ("two-execs", "child-sync-ok"):      # (the child has a fixed name: one parent only)
                 s["starts"] = s["starts"] + [dict(s["starts"][0], name="e2")]
             out.append(s)
     return out
